@@ -1,7 +1,11 @@
 (* Check/C02.v — correspondence comparator for C02 (UDist).
-   Line:  2 N1 N2 tnil |T| T...  nu { u pmf cdf }*  lo hi step status
+   Line:  2 k block{k}     block :=  N1 N2 tnil |T| T...  nu { u pmf cdf }*  lo hi step status
+     k >= 1 distributions evaluated back to back IN ONE PROCESS (a result must not depend on which other
+     distributions were evaluated before); the verdict is that of the first block that is not ok, with
+     the block index as last diagnostic; the tag is the OR of the blocks' tags.
      tnil = 1: T is nil in Go (then |T| = 0);  u, pmf, cdf, lo, hi, step: float64 bit patterns;
-     status 0 = every call returned, 2 = some call panicked.
+     status 0 = every call returned, 2 = some call panicked, 3 = the tie vector was modified,
+     5 = a repeated evaluation in the same process returned a different value.
    The whole distribution for (N1,N2,T) is computed once (Model.Udist.mass_table), then
    every u of the line is compared.  Tolerance on probabilities: 1e-10 absolute (DESIGN 7, C02); exact
    (tolerance 0) where the property states the value outright, see tol_pmf_at / tol_cdf_at. *)
@@ -20,11 +24,14 @@ Definition tol_cdf_at (n1 n2 : nat) (u : Q) : Q :=
 Definition p_triple : parser (Q * xreal * xreal) :=
   do u <- pQ; do p <- pX; do c <- pX; pret (u, p, c).
 
-Definition p_line02 : parser (nat * nat * bool * list nat * list (Q * xreal * xreal) * (xreal * xreal * xreal) * Z) :=
-  do tag <- pZ; if negb (tag =? 2) then (fun _ => None) else
+Definition block02 : Type := nat * nat * bool * list nat * list (Q * xreal * xreal) * (xreal * xreal * xreal) * Z.
+Definition p_block02 : parser block02 :=
   do n1 <- pnat; do n2 <- pnat; do tnil <- pbool; do T <- plist pnat;
   do us <- plist_any p_triple; do lo <- pX; do hi <- pX; do st <- pX; do status <- pZ;
-  pend (n1, n2, tnil, T, us, (lo, hi, st), status).
+  pret (n1, n2, tnil, T, us, (lo, hi, st), status).
+Definition p_line02 : parser (list block02) :=
+  do tag <- pZ; if negb (tag =? 2) then (fun _ => None) else
+  do bs <- plist_any p_block02; pend bs.
 
 (* the property's domain: N1,N2 >= 1; T nil, or positive counts over >= 2 ranks summing to N1+N2 *)
 Definition valid_T (n1 n2 : nat) (tnil : bool) (T : list nat) : bool :=
@@ -50,22 +57,36 @@ Fixpoint cmp_us (n1 n2 : nat) (T : list nat) (tbl cs : list Z) (tot : Z)
       cmp_us n1 n2 T tbl cs tot rest (i + 1)
   end.
 
+(* one block: (code, tag, pos, diagnostics) *)
+Definition check_block02 (b : block02) : Z * Z * Z * list Z :=
+  let '(n1, n2, tnil, T, us, (lo, hi, st), status) := b in
+  if negb (valid_T n1 n2 tnil T) then (V_MALFORMED, 0, -2, []) else
+  let tag := tag02 n1 n2 tnil T in
+  if negb (status =? 0) then (V_MISMATCH, tag, -1, [4; status]) else
+  let tbl := dist_table n1 n2 T in
+  let cs := cumsum 0 tbl in
+  let tot := choosen (n1 + n2) n1 in
+  match cmp_us n1 n2 T tbl cs tot us 0 with
+  | Some (i, which, e) => (V_MISMATCH, tag, i, which :: qdiag e)
+  | None =>
+      let (elo, ehi) := udist_bounds n1 n2 in
+      if negb (xeq (XFin elo) lo && xeq (XFin ehi) hi) then (V_MISMATCH, tag, -1, 2 :: qdiag ehi)
+      else if negb (xeq (XFin udist_step) st) then (V_MISMATCH, tag, -1, [3])
+      else (V_OK, tag, -1, [])
+  end.
+
+Fixpoint check_blocks02 (bs : list block02) (k : Z) (tag : Z) : list Z :=
+  match bs with
+  | [] => verdict V_OK tag (-1) []
+  | b :: rest =>
+      let '(code, tg, pos, diag) := check_block02 b in
+      if (code =? V_OK) then check_blocks02 rest (k + 1) (Z.lor tag tg)
+      else verdict code (Z.lor tag tg) pos (diag ++ [k])
+  end.
+
 Definition check_C02 (line : list Z) : list Z :=
   match p_line02 line with
   | None => verdict V_MALFORMED 0 (-1) []
-  | Some ((n1, n2, tnil, T, us, (lo, hi, st), status), _) =>
-      if negb (valid_T n1 n2 tnil T) then verdict V_MALFORMED 0 (-2) [] else
-      let tag := tag02 n1 n2 tnil T in
-      if negb (status =? 0) then verdict V_MISMATCH tag (-1) [4; status] else
-      let tbl := dist_table n1 n2 T in
-      let cs := cumsum 0 tbl in
-      let tot := choosen (n1 + n2) n1 in
-      match cmp_us n1 n2 T tbl cs tot us 0 with
-      | Some (i, which, e) => verdict V_MISMATCH tag i (which :: qdiag e)
-      | None =>
-          let (elo, ehi) := udist_bounds n1 n2 in
-          if negb (xeq (XFin elo) lo && xeq (XFin ehi) hi) then verdict V_MISMATCH tag (-1) (2 :: qdiag ehi)
-          else if negb (xeq (XFin udist_step) st) then verdict V_MISMATCH tag (-1) [3]
-          else verdict V_OK tag (-1) []
-      end
+  | Some ([], _) => verdict V_MALFORMED 0 (-3) []
+  | Some (bs, _) => check_blocks02 bs 0 0
   end.
